@@ -4388,9 +4388,15 @@ impl GlobalInferenceCtx<'_> {
                 // in this case we might code something special in the `infer_expr`
                 // code to calculate the meta type if the local is constant, but that
                 // would waste a lot of space and what about members? it's just too much
+                // the body of `naive` lives in the file `naive` was defined in, which
+                // might not be the file that is currently being inferred
                 let old_tfqn = std::mem::replace(&mut self.loc, tfqn.wrap());
-                let actual_ty = self.const_ty(global_body)?;
+                let old_bodies =
+                    std::mem::replace(&mut self.bodies, &self.world_bodies[naive.file()]);
+                let actual_ty = self.const_ty(global_body);
+                self.bodies = old_bodies;
                 self.loc = old_tfqn;
+                let actual_ty = actual_ty?;
 
                 if actual_ty.can_have_a_name() {
                     set_type_name(actual_ty, TyName::Global(tfqn));
